@@ -674,6 +674,12 @@ namespace {
             throw stop_case{};
         }
 
+        void chk_idle( const char* when )
+        {
+            if ( ( mask & P32 ) && !sm.idle() )
+                verif::fail( "sm.not-idle-after-failure", verif::cat( "pairing is not idle after Pairing Failed (", when, ")  [config: ", cf.name, "]  trace: ", trace ), sig_base() );
+        }
+
         std::string sig_base() const
         {
             static const char* const mgr[] = { "legacy", "lesc", "combined" };
@@ -702,7 +708,7 @@ namespace {
                 ++rejected_deep;
             chk( P32, failed, "sm.not-rejected", verif::cat( sig_base(), " state=", st_name( st ), " opcode=", pdu.empty() ? -1 : pdu[ 0 ] ), "not answered with Pairing Failed (", why,
                 ", reference state '", st_name( st ), "'): PDU ", verif::hex( pdu ), ", response ", verif::hex( out ) );
-            chk( P32, sm.idle(), "sm.not-idle-after-failure", sig_base(), "pairing is not idle after Pairing Failed (", why, ")" );
+            chk_idle( why );
             to_idle();
         }
 
@@ -762,7 +768,7 @@ namespace {
                 if ( failed )
                 {
                     chk( P32, soft || was_done, "sm.rejected-in-order", sig_base(), "a valid Pairing Request ", verif::hex( pdu ), " in idle state is answered with ", verif::hex( out ) );
-                    chk( P32, sm.idle(), "sm.not-idle-after-failure", sig_base(), "pairing is not idle after Pairing Failed" );
+                    chk_idle( "answer to a request" );
                     ++rejected;
                     return to_idle();
                 }
@@ -864,7 +870,7 @@ namespace {
                 {
                     chk( P32, asked && g_io.mode == 2, "sm.rejected-in-order", sig_base(), "Pairing Random ", verif::hex( pdu ), " after the confirm value was sent is answered with ",
                         verif::hex( out ) );
-                    chk( P32, sm.idle(), "sm.not-idle-after-failure", sig_base(), "pairing is not idle after Pairing Failed" );
+                    chk_idle( "answer to a request" );
                     return to_idle();
                 }
                 chk( P32, out.size() == 17 && out[ 0 ] == 0x04, "sm.bad-response", sig_base(), "Pairing Random answered with ", verif::hex( out ) );
@@ -921,7 +927,7 @@ namespace {
                 }
                 else if ( failed )
                 {
-                    chk( P32, sm.idle(), "sm.not-idle-after-failure", sig_base(), "pairing is not idle after Pairing Failed" );
+                    chk_idle( "answer to a request" );
                     ++rejected;
                     ++rejected_deep;
                     to_idle();
@@ -963,7 +969,7 @@ namespace {
             case 0x05:
                 chk( P32, out.size() == 2 && ( st == S_NO || ( st == S_YES && ea_received && !ea_ok ) ), "sm.unexpected-output", sig_base(), "Pairing Failed ", verif::hex( out ),
                     " sent in reference state '", st_name( st ), "'" );
-                chk( P32, sm.idle(), "sm.not-idle-after-failure", sig_base(), "pairing is not idle after Pairing Failed was sent" );
+                chk_idle( "sent by the peripheral" );
                 to_idle();
                 break;
             case 0x06:
@@ -1055,8 +1061,10 @@ namespace {
                 static_cast< std::uint8_t >( ( b >> 8 ) & 7 ), static_cast< std::uint8_t >( ( b >> 11 ) & 7 ) };
         }
 
-        u128 central_tk() const
+        u128 central_tk( int variant ) const
         {
+            if ( variant % 4 == 1 && preq.size() == 7 && preq[ 2 ] == 1 && cf.oob && g_oob.present )
+                return g_oob.data;
             switch ( cur_method )
             {
             case OOB: return g_oob.data;
@@ -1073,11 +1081,11 @@ namespace {
             return r;
         }
 
-        bytes confirm( bool good )
+        bytes confirm( bool good, int variant = 0 )
         {
             cur_mrand      = Hash().byte( 40 ).u64( c.seed ).u64( ++n_mrand ).out16();
             const u128 use = good ? cur_mrand : Hash().byte( 43 ).u64( c.seed ).u64( n_mrand ).out16();
-            return with_value( 0x03, t_c1( central_tk(), use, p1, p2 ) );
+            return with_value( 0x03, t_c1( central_tk( variant ), use, p1, p2 ) );
         }
 
         bytes public_key( bool good, int a = 0, int b = 0 )
@@ -1125,7 +1133,7 @@ namespace {
                     }
                 return r;
             }
-            case L_REQ: return confirm( good );
+            case L_REQ: return confirm( good, b );
             case L_CONF: {
                 u128 v = cur_mrand;
                 if ( !good )
@@ -1310,6 +1318,9 @@ namespace {
         {
             stopped = true;
         }
+
+        if ( verif::opt( "trace" ) == "1" )  // diagnostic: <binary> --property C32 --replay f.case --opt trace=1
+            std::cout << "TRACE [" << cf.name << "]" << r.trace << "\n";
 
         static const char* const mgr[] = { "legacy", "lesc", "combined" };
         const std::string        m     = mgr[ cf.manager ];
